@@ -193,7 +193,7 @@ func LoadRuntime(cfgDir string) (*Runtime, error) {
 // certDigest is the digest of what HAProxy loads for a certificate file; as the dynamic updater does,
 // empty lines are ignored (`set ssl cert` payloads cannot carry them).
 func certDigest(path string) string {
-	b, err := os.ReadFile(path)
+	b, err := os.ReadFile(realPath(path))
 	if err != nil {
 		return "missing"
 	}
@@ -210,8 +210,17 @@ func normPEM(s string) string {
 	return strings.Join(out, "\n")
 }
 
+// realPath: a write fault injected by the harness replaces the target by a directory that keeps the old content in
+// .orig -- a reader (HAProxy) still sees the old file
+func realPath(path string) string {
+	if st, err := os.Stat(path); err == nil && st.IsDir() {
+		return filepath.Join(path, ".orig")
+	}
+	return path
+}
+
 func loadCrtList(rt *Runtime, path string) {
-	b, err := os.ReadFile(path)
+	b, err := os.ReadFile(realPath(path))
 	if err != nil {
 		rt.Certs["crt-list:"+path] = "missing"
 		return
